@@ -68,6 +68,21 @@ Faults == <<
   <<"malformed", "attribute", "addi x5, x5, F0.low">>,
   <<"malformed", "subscript", "li x5, [4][1]">>,
   <<"malformed", "call", "addi x5, x5, F0(1)">>,
+  \* backslash escapes Python's decoder refuses
+  <<"malformed", "string-trailing-backslash", "string abc\\">>,
+  <<"malformed", "char-truncated-escape", "li x5, '\\x4'">>,
+  <<"malformed", "char-lone-backslash", "KU = '\\'">>,
+  <<"malformed", "string-truncated-unicode", "string ab\\u12">>,
+  \* lines whose keyword is written in another case: the documentation does not say whether that is legal, so they may be
+  \* accepted or refused - but never with an internal exception (class "either": FaultRefused does not apply)
+  <<"either", "shorthand-upper", "DD 1">>,
+  <<"either", "shorthand-mixed", "Dw 5">>,
+  <<"either", "sequence-upper", "BYTES 1 2">>,
+  <<"either", "pack-upper", "PACK <I 5">>,
+  <<"either", "string-upper", "STRING ab">>,
+  <<"either", "align-upper", "ALIGN 4">>,
+  <<"either", "instruction-upper", "ADDI x5, x5, 1">>,
+  <<"either", "pseudo-upper", "LI x5, 3">>,
   <<"noninteger", "float", "addi x5, x5, 1.5">>,
   <<"noninteger", "division", "KZ = 3 / 2">>,
   <<"noninteger", "data", "dw 2.5">>,
@@ -79,6 +94,8 @@ Faults == <<
   <<"error", "directive-indented", "    error stop here # really">>,
   <<"include", "missing", "include nothere.asm">>,
   <<"include", "missing-bytes", "include_bytes nothere.bin">>,
+  <<"include", "names-a-directory", "include ../inc1">>,
+  <<"include", "bytes-names-a-directory", "include_bytes ../inc1">>,
   <<"misfit", "dh", "dh 65536">>,
   <<"misfit", "bytes", "bytes 1 2 3 256">>,
   <<"misfit", "bytes-negative", "bytes -129 0 0 0">>,
